@@ -95,6 +95,7 @@ type Profile struct {
 	Backends           []string
 	Reads              []string // read kinds for "read" steps
 	NoInitVer          bool
+	KeepFlush          bool // reopen keeps the flush threshold of the case (C05: operations stay split)
 	NormalFormOneIn    int // one case in N draws every version's writes in normal form (ascending keys, one op per key)
 	FixedSkipFast      *bool
 }
@@ -188,6 +189,9 @@ func GenOp(t *rapid.T, w *World, p *Profile) Op {
 		c := genCfg(t, false)
 		if p.FixedSkipFast != nil {
 			c.SkipFast = *p.FixedSkipFast
+		}
+		if p.KeepFlush {
+			c.Flush = w.Cfg.Flush
 		}
 		// InitialVersion: keep, drop, or (empty store) re-draw; never above the first stored version
 		c.InitVer = w.Cfg.InitVer
